@@ -1,0 +1,14 @@
+//go:build verif
+
+package verifiable
+
+import "net/http"
+
+// Entry point used by the verification harness (/verif, property C12).
+// Compiled only with the build tag "verif"; it adds no behaviour.
+
+// VerifNewHTTPDIDResolver builds an HTTPDIDResolver: its fields are unexported
+// and the package offers no constructor.
+func VerifNewHTTPDIDResolver(resolverURL string, client *http.Client) HTTPDIDResolver {
+	return HTTPDIDResolver{resolverURL: resolverURL, customHTTPClient: client}
+}
